@@ -1,12 +1,14 @@
 package sim
 
 import (
+	"context"
 	"fmt"
 	"sort"
 	"strings"
 
 	"github.com/gogo/protobuf/proto"
 	configapi "github.com/onosproject/onos-api/go/onos/config/v2"
+	sb "github.com/onosproject/onos-config/pkg/southbound/gnmi"
 	valuesv2 "github.com/onosproject/onos-config/pkg/utils/v2/values"
 	gpb "github.com/openconfig/gnmi/proto/gnmi"
 	"github.com/openconfig/gnmi/proto/gnmi_ext"
@@ -206,3 +208,7 @@ func nativeKey(pv *configapi.PathValue) (string, error) {
 }
 
 func configTarget(t string) configapi.TargetID { return configapi.TargetID(t) }
+
+func connID(s string) sb.ConnID { return sb.ConnID(s) }
+
+func ctxBg() context.Context { return context.Background() }
